@@ -287,3 +287,100 @@ Proof.
   assert (NE : p <> length (wprocs w)) by lia.
   rewrite nth_upd_other by exact NE. rewrite app_nth2 by lia. rewrite LEN, Nat.sub_diag. cbn. repeat split; reflexivity.
 Qed.
+
+(* ------------------------------------------------------------------ C15: ROUND_ROBIN, one step per item, recorded *)
+Lemma node_field_upd {A} (f : node -> A) w n g :
+  (forall x, f (g x) = f x) -> f (get_node (upd_node w n g) n) = f (get_node w n).
+Proof.
+  intros F. unfold get_node, upd_node. cbn [wnodes set]. simpl. destruct (Nat.lt_ge_cases n (length (wnodes w))) as [L|L].
+  - rewrite nth_upd_eq by exact L. apply F.
+  - rewrite !nth_overflow; auto. rewrite upd_len. exact L.
+Qed.
+
+Lemma update_state_rep_outptr w n :
+  noutptr (get_node (update_state_rep w n) n) = noutptr (get_node w n) /\
+  nouts (get_node (update_state_rep w n) n) = nouts (get_node w n).
+Proof.
+  unfold update_state_rep. destruct (nlast (get_node w n)).
+  - destruct (nsrep (get_node w n)) as [a b]. destruct (count_threads (get_node w n)) as [c d].
+    destruct (_ >? _); [unfold crashw; match goal with |- context [wcrash ?x] => destruct (wcrash x) end|];
+      split; apply (node_field_upd _ w n); reflexivity.
+  - split; apply (node_field_upd _ w n); reflexivity.
+Qed.
+
+Definition same_frame (w w' : world) : Prop :=
+  wnodes w' = wnodes w /\ wlog w' = wlog w /\ wprocs w' = wprocs w /\ witems w' = witems w.
+Lemma same_frame_refl w : same_frame w w. Proof. repeat split. Qed.
+Lemma same_frame_trans a b c : same_frame a b -> same_frame b c -> same_frame a c.
+Proof. intros (A1 & A2 & A3 & A4) (B1 & B2 & B3 & B4). repeat split; congruence. Qed.
+Lemma store_op_frame w e o : same_frame w (fst (fst (store_op w e o))).
+Proof. unfold store_op. destruct (StoreB.step _ _) as [[s r] t]. repeat split. Qed.
+Lemma w_succeed_all_frame l : forall w, same_frame w (w_succeed_all w l).
+Proof.
+  unfold w_succeed_all. induction l as [|y l IH]; intros w; simpl; [apply same_frame_refl|].
+  eapply same_frame_trans; [|apply IH]. unfold w_succeed. destruct (succeed (wk w) y); [repeat split|].
+  unfold crashw. destruct (wcrash w); repeat split.
+Qed.
+Lemma e_reserve_put_shape w e p : same_frame w (fst (e_reserve_put w e p)).
+Proof.
+  unfold e_reserve_put. destruct (w_event w) as [w1 ev] eqn:E1.
+  pose proof (store_op_frame w1 e (StoreB.Sync ev)) as F2. destruct (store_op w1 e (StoreB.Sync ev)) as [[w2 r2] t2]. cbn [fst] in F2.
+  pose proof (store_op_frame w2 e (StoreB.RPut p 0)) as F3. destruct (store_op w2 e (StoreB.RPut p 0)) as [[w3 r3] t3]. cbn [fst] in *.
+  assert (F1 : same_frame w w1) by (unfold w_event in E1; injection E1 as <- _; repeat split).
+  eapply same_frame_trans; [exact F1|]. eapply same_frame_trans; [exact F2|]. eapply same_frame_trans; [exact F3|].
+  apply w_succeed_all_frame.
+Qed.
+
+(* a blocking machine worker under ROUND_ROBIN: the block that runs when the item is ready draws exactly one index --
+   the number of draws so far modulo the number of out-edges --, records exactly that index, and reserves space on
+   exactly that out-edge *)
+Theorem worker_round_robin_step w p :
+  let n := pown (me w p) in let nd := get_node w n in
+  ppc (me w p) = 1%nat -> noutsel nd = PRoundRobin -> nblocking nd = true -> nouts nd <> [] ->
+  (n < length (wnodes w))%nat -> (p < length (wprocs w))%nat ->
+  let k := noutptr nd in let m := length (nouts nd) in
+  let w' := fst (worker_block w p) in
+  noutptr (get_node w' n) = S k /\
+  wlog w' = wlog w ++ [LSel n true (k mod m)] /\
+  pix (me w' p) = nth (k mod m) (nouts nd) 0%nat /\
+  ppc (me w' p) = 5%nat.
+Proof.
+  intros n nd PC SEL NB NE L LP k m. unfold worker_block. fold n. fold nd. rewrite PC, SEL.
+  set (w1 := upd_node w n (fun x => x <| nsumproc ::= fun v => v + (wnow w - pt0 (me w p)) |>)).
+  assert (G1 : get_node w1 n = nd <| nsumproc ::= fun v => v + (wnow w - pt0 (me w p)) |>).
+  { unfold w1, nd, get_node, upd_node. cbn [wnodes set]. simpl. apply nth_upd_eq. exact L. }
+  unfold draw_sel. rewrite G1. cbn [noutsel noutptr nouts set]. simpl. rewrite SEL. fold k. fold m.
+  assert (M : (0 < m)%nat) by (unfold m; destruct (nouts nd); [congruence|simpl; lia]).
+  assert (IR : in_range (Z.of_nat k mod Z.of_nat m) m = true).
+  { unfold in_range. pose proof (Z.mod_pos_bound (Z.of_nat k) (Z.of_nat m)) as B.
+    apply andb_true_iff. split; [apply Z.leb_le|apply Z.ltb_lt]; lia. }
+  rewrite IR. cbn [negb]. rewrite NB.
+  assert (TN : Z.to_nat (Z.of_nat k mod Z.of_nat m) = (k mod m)%nat).
+  { rewrite <- Nat2Z.inj_mod. apply Nat2Z.id. }
+  rewrite TN.
+  set (w2 := upd_node w1 n (fun x => x <| noutptr ::= S |>)).
+  set (w3 := logw w2 (LSel n true (k mod m))).
+  set (w4 := set_thread w3 n p true).
+  destruct (update_state_rep_shape w4 n) as (B1 & B2 & B3 & B4 & _).
+  destruct (update_state_rep_outptr w4 n) as (B5 & _).
+  set (w5 := update_state_rep w4 n) in *. clearbody w5.
+  set (w6 := upd_proc w5 p (fun x => x <| pt1 := wnow w5 |>)).
+  destruct (e_reserve_put_shape w6 (nth (k mod m) (nouts nd) 0%nat) p) as (C1 & C2 & C3 & C4).
+  destruct (e_reserve_put w6 (nth (k mod m) (nouts nd) 0%nat) p) as [w7 t] eqn:E7. cbn [fst] in *.
+  assert (P4 : noutptr (get_node w4 n) = S k).
+  { unfold w4, set_thread. rewrite (node_field_upd noutptr w3 n) by reflexivity.
+    unfold w3, w2, get_node, logw, upd_node. cbn [wnodes set]. simpl.
+    rewrite nth_upd_eq by (unfold w1, upd_node; cbn [wnodes set]; simpl; rewrite upd_len; exact L).
+    rewrite nth_upd_eq by exact L. reflexivity. }
+  assert (LEN5 : length (wprocs w5) = length (wprocs w)) by (rewrite B4; reflexivity).
+  split; [|split; [|split]].
+  - rewrite (get_node_nodes w7 _ n) by reflexivity. rewrite (get_node_nodes w6 w7 n C1).
+    rewrite (get_node_nodes w5 w6 n) by reflexivity. rewrite B5. exact P4.
+  - cbn [wlog setpc upd_proc set]. simpl. rewrite C2. unfold w6. cbn [wlog upd_proc set]. simpl. rewrite B3. reflexivity.
+  - unfold me, get_proc, setpc, upd_proc. cbn [wprocs set]. simpl. rewrite C3.
+    rewrite nth_upd_eq by (rewrite upd_len; unfold w6, upd_proc; cbn [wprocs set]; simpl; rewrite upd_len, LEN5; exact LP).
+    cbn. rewrite nth_upd_eq by (unfold w6, upd_proc; cbn [wprocs set]; simpl; rewrite upd_len, LEN5; exact LP). reflexivity.
+  - unfold me, get_proc, setpc, upd_proc. cbn [wprocs set]. simpl. rewrite C3.
+    rewrite nth_upd_eq by (rewrite upd_len; unfold w6, upd_proc; cbn [wprocs set]; simpl; rewrite upd_len, LEN5; exact LP).
+    reflexivity.
+Qed.
